@@ -58,6 +58,15 @@ func handle(line string) string {
 			return "BADREQ"
 		}
 		return lexRun(string(b), f[1] == "n")
+	case "SPEC":
+		if len(f) != 2 {
+			return "BADREQ"
+		}
+		b, ok := unhex(f[1])
+		if !ok {
+			return "BADREQ"
+		}
+		return specRun(string(b))
 	case "QUOTE":
 		if len(f) != 3 {
 			return "BADREQ"
